@@ -187,6 +187,9 @@ Proof.
   induction k as [|k IH]; [reflexivity|]. cbn [repeat app]. now rewrite IH.
 Qed.
 
+Lemma map_repeat' {A B} (f : A -> B) x k : map f (repeat x k) = repeat (f x) k.
+Proof. induction k as [|k IH]; [reflexivity|]. cbn [repeat map]. now rewrite IH. Qed.
+
 (** * Saturated value against a constant that fits in [L] bits *)
 
 Lemma satv_eq_iff L N k :
@@ -231,7 +234,7 @@ Proof.
   intros Hn Hk Hne Hvs. unfold assert_k_of_n.
   pose proof (int_to_binary_spec k Hk) as Hspec. cbv zeta in Hspec.
   destruct Hspec as (Hdig & Hval & Hlt & Hge & Hz).
-  set (bin := int_to_binary k) in *. set (L := length bin) in *.
+  remember (int_to_binary k) as bin eqn:Ebin. remember (length bin) as L eqn:EL.
   eapply specA_bind; [apply pop_count_spec; assumption|].
   intros o n1 new1 Hle (sb & -> & Hlsb & Hrsb & Hsem).
   set (p := clog2 (length vs)) in *.
@@ -240,7 +243,7 @@ Proof.
   - (* k needs more bits than the count has *)
     apply Nat.ltb_lt in E.
     destruct sb as [|b sb']; [cbn [wd length] in Hlsb; lia|].
-    inversion Hrsb as [|? ? Hb _]; subst.
+    pose proof (Forall_inv Hrsb) as Hb.
     apply specA_emit; [lia| |].
     { apply vars_upto_Forall. repeat constructor; unfold inr in *; lia. }
     split; [reflexivity|]. intros s Hs. rewrite app_nil_r in Hs.
@@ -250,25 +253,25 @@ Proof.
     pose proof (count_bounds s vs) as HN.
     assert (HpL : (S p < L)%nat) by (rewrite Hlsb in E; cbn [wd] in E; lia).
     assert (Hk0 : 0 < k).
-    { destruct (Z.eq_dec k 0) as [E0|E0]; [|lia]. specialize (Hz E0). unfold L in HpL.
-      rewrite Hz in HpL. cbn [length] in HpL. lia. }
+    { destruct (Z.eq_dec k 0) as [E0|E0]; [|lia]. specialize (Hz E0). rewrite EL, Hz in HpL.
+      cbn [length] in HpL. lia. }
     specialize (Hge Hk0).
     apply Nat2Z.inj_le in Hp1. rewrite pow2_nat_Z in Hp1.
     assert (2 ^ Z.of_nat (S p) <= 2 ^ (Z.of_nat L - 1)) by (apply Z.pow_le_mono_r; lia).
     rewrite pow2_S in *. pose proof (pow2_pos p). lia.
   - apply Nat.ltb_ge in E.
     assert (Hfn : firstn (length sb) (rev bin) = rev bin).
-    { apply firstn_all2. rewrite rev_length. exact E. }
+    { apply firstn_all2. rewrite rev_length, <- EL. exact E. }
     rewrite Hfn, rev_app_distr, rev_involutive, rev_repeat, rev_length.
-    fold L. set (pad := repeat (-1) (length sb - L) ++ bin).
+    rewrite <- EL. set (pad := repeat (-1) (length sb - L) ++ bin).
     fold (digit_cls pad sb).
     assert (Hpd : Forall digit pad).
     { apply Forall_app. split; [|assumption]. apply Forall_forall. intros x Hx.
       apply repeat_spec in Hx. right. exact Hx. }
     assert (Hpl : length pad = length sb).
-    { unfold pad. rewrite app_length, repeat_length. fold L. lia. }
+    { unfold pad. rewrite app_length, repeat_length. lia. }
     assert (Hpv : pmv pad = k).
-    { unfold pmv, pad. rewrite map_app, map_repeat. change (0 <? -1) with false.
+    { unfold pmv, pad. rewrite map_app, map_repeat'. change (0 <? -1) with false.
       rewrite msbv_repeat_false. exact Hval. }
     apply specA_emit; [lia| |].
     { now apply digit_cls_vars. }
@@ -279,4 +282,513 @@ Proof.
     + intros H. rewrite H. exact Hpv.
     + intros H. apply msbv_inj; [now rewrite lits_length, map_length|].
       rewrite H. symmetry. exact Hpv.
+Qed.
+
+(** * Zero padding *)
+
+Lemma spec_fresh_zero {B} a (rest : list Z -> M B) n Q :
+  0 <= n ->
+  Spec (rest (zseq (n + 1) a)) (n + Z.of_nat a)
+       (fun b n2 new2 => Q b n2 (zero_cls (zseq (n + 1) a) ++ new2)) ->
+  Spec (zp <- nfresh a ;; zero_out zp ;;; rest zp) n Q.
+Proof.
+  intros Hn H. destruct (zero_cls_defines n a Hn) as [e0 D0].
+  eapply (spec_prefix _ _ n (n + Z.of_nat a) _ e0); [|exact D0|exact H].
+  intros cs. unfold bind. rewrite nfresh_run. unfold zero_out. rewrite emit_run. reflexivity.
+Qed.
+
+Lemma msbv_zeros_app s zs xs :
+  Forall (fun v => lit_true s v = false) zs ->
+  msbv (lits s (zs ++ xs)) = msbv (lits s xs).
+Proof.
+  induction 1 as [|z zs Hz _ IH]; [reflexivity|].
+  cbn [app lits map]. rewrite Hz. fold (lits s (zs ++ xs)). now rewrite msbv_false_cons.
+Qed.
+
+Lemma zseq_inr n a m : 0 <= n -> n + Z.of_nat a <= m -> Forall (inr m) (zseq (n + 1) a).
+Proof.
+  intros Hn Hm. apply Forall_forall. intros v Hv. apply zseq_In in Hv. unfold inr. lia.
+Qed.
+
+Definition msl_post (n : Z) (xs ys : list Z) (r : list Z * list Z) (n' : Z) (new : cnf)
+  : Prop :=
+  length (fst r) = length (snd r) /\
+  Forall (inr n') (fst r) /\ Forall (inr n') (snd r) /\
+  (if Nat.eqb (length xs) (length ys) then r = (xs, ys)
+   else length (fst r) = S (Nat.max (length xs) (length ys))) /\
+  forall s, sat s new = true ->
+    msbv (lits s (fst r)) = msbv (lits s xs) /\ msbv (lits s (snd r)) = msbv (lits s ys).
+
+Lemma make_same_length_spec n xs ys :
+  0 <= n -> Forall (inr n) xs -> Forall (inr n) ys ->
+  Spec (make_same_length xs ys) n (msl_post n xs ys).
+Proof.
+  intros Hn Hxs Hys. unfold make_same_length, msl_post.
+  destruct (Nat.eqb (length xs) (length ys)) eqn:E.
+  - apply Nat.eqb_eq in E. apply spec_ret; [assumption|]. cbn [fst snd].
+    repeat (split; try assumption); reflexivity.
+  - apply Nat.eqb_neq in E. destruct (Nat.ltb (length xs) (length ys)) eqn:E2.
+    + apply Nat.ltb_lt in E2.
+      set (a := (length ys - length xs + 1)%nat).
+      eapply spec_fresh_zero; [assumption|].
+      eapply spec_fresh_zero; [lia|].
+      apply spec_ret; [lia|]. cbn [fst snd].
+      split; [rewrite !app_length, !zseq_length; lia|].
+      split. { apply Forall_app. split; [apply zseq_inr; lia|]. eapply Forall_inr_le; [|eassumption]. lia. }
+      split. { apply Forall_app. split; [apply zseq_inr; lia|]. eapply Forall_inr_le; [|eassumption]. lia. }
+      split; [rewrite app_length, zseq_length; lia|].
+      intros s Hs. rewrite app_nil_r, sat_app, andb_true_iff in Hs. destruct Hs as [Hs1 Hs2].
+      apply zero_cls_sat in Hs1; [|apply zseq_pos; lia].
+      apply zero_cls_sat in Hs2; [|apply zseq_pos; lia].
+      split; now apply msbv_zeros_app.
+    + apply Nat.ltb_ge in E2.
+      set (a := (length xs - length ys + 1)%nat).
+      eapply spec_fresh_zero; [assumption|].
+      eapply spec_fresh_zero; [lia|].
+      apply spec_ret; [lia|]. cbn [fst snd].
+      split; [rewrite !app_length, !zseq_length; lia|].
+      split. { apply Forall_app. split; [apply zseq_inr; lia|]. eapply Forall_inr_le; [|eassumption]. lia. }
+      split. { apply Forall_app. split; [apply zseq_inr; lia|]. eapply Forall_inr_le; [|eassumption]. lia. }
+      split; [rewrite app_length, zseq_length; lia|].
+      intros s Hs. rewrite app_nil_r, sat_app, andb_true_iff in Hs. destruct Hs as [Hs1 Hs2].
+      apply zero_cls_sat in Hs1; [|apply zseq_pos; lia].
+      apply zero_cls_sat in Hs2; [|apply zseq_pos; lia].
+      split; now apply msbv_zeros_app.
+Qed.
+
+(** The optional sign bits of [inequality]. *)
+Definition sign_pad (c : bool) (p : list Z * list Z) : M (list Z * list Z) :=
+  if c then
+    z1 <- nfresh 1 ;; zero_out z1 ;;;
+    z2 <- nfresh 1 ;; zero_out z2 ;;;
+    ret (z1 ++ fst p, z2 ++ snd p)
+  else ret p.
+
+Definition sign_pad_post (c : bool) (p r : list Z * list Z) (n' : Z) (new : cnf) : Prop :=
+  (if c then length (fst r) = S (length (fst p)) /\ length (snd r) = S (length (snd p))
+   else r = p) /\
+  Forall (inr n') (fst r) /\ Forall (inr n') (snd r) /\
+  forall s, sat s new = true ->
+    msbv (lits s (fst r)) = msbv (lits s (fst p)) /\
+    msbv (lits s (snd r)) = msbv (lits s (snd p)).
+
+Lemma sign_pad_spec n c p :
+  0 <= n -> Forall (inr n) (fst p) -> Forall (inr n) (snd p) ->
+  Spec (sign_pad c p) n (sign_pad_post c p).
+Proof.
+  intros Hn Hx Hy. unfold sign_pad, sign_pad_post. destruct c.
+  - eapply spec_fresh_zero; [assumption|].
+    eapply spec_fresh_zero; [lia|].
+    apply spec_ret; [lia|]. cbn [fst snd].
+    split; [split; reflexivity|].
+    split. { apply Forall_app. split; [apply zseq_inr; lia|]. eapply Forall_inr_le; [|eassumption]. lia. }
+    split. { apply Forall_app. split; [apply zseq_inr; lia|]. eapply Forall_inr_le; [|eassumption]. lia. }
+    intros s Hs. rewrite app_nil_r, sat_app, andb_true_iff in Hs. destruct Hs as [Hs1 Hs2].
+    apply zero_cls_sat in Hs1; [|apply zseq_pos; lia].
+    apply zero_cls_sat in Hs2; [|apply zseq_pos; lia].
+    split; now apply msbv_zeros_app.
+  - apply spec_ret; [assumption|]. repeat (split; try assumption); reflexivity.
+Qed.
+
+(** * Two's complement negation *)
+
+Definition flip_cls (fl bits : list Z) : cnf :=
+  flat_map (fun p => [[fst p; snd p]; [- fst p; - snd p]]) (combine fl bits).
+
+Lemma flip_gate_sat s f b : 0 < f -> b <> 0 ->
+  (sat s [[f; b]; [- f; - b]] = true <-> s f = negb (lit_true s b)).
+Proof.
+  intros Hf Hb. unfold sat, csat. cbn [forallb existsb].
+  rewrite (lit_true_pos s f Hf), (lit_true_neg s f Hf), lit_true_opp by assumption.
+  destruct (s f), (lit_true s b); cbn; intuition congruence.
+Qed.
+
+Lemma flip_cls_defines bits : forall m n0,
+  0 <= n0 <= m -> Forall (inr n0) bits ->
+  exists ext, Defines m (m + Z.of_nat (length bits))
+                (flip_cls (zseq (m + 1) (length bits)) bits) ext.
+Proof.
+  induction bits as [|b bits IH]; intros m n0 Hm Hb.
+  - exists (fun s => s). cbn [length zseq flip_cls combine flat_map].
+    replace (m + Z.of_nat 0) with m by lia. apply defines_nil. lia.
+  - inversion Hb as [|? ? Hb1 Hb2]; subst.
+    destruct (IH (m + 1) n0 ltac:(lia) Hb2) as [e2 D2].
+    pose proof (inr_nz _ _ Hb1) as Hb0.
+    destruct (gate_defines m [[m + 1; b]; [- (m + 1); - b]]
+                (fun s => negb (lit_true s b))) as [e1 D1]; try lia.
+    { apply vars_upto_Forall. unfold inr in *. repeat constructor; lia. }
+    { intros s t A. f_equal. apply (lit_true_agree m); [assumption|]. unfold inr in *. lia. }
+    { intros s. apply flip_gate_sat; [lia|assumption]. }
+    exists (fun s => e2 (e1 s)). cbn [length zseq]. unfold flip_cls. cbn [combine flat_map fst snd].
+    fold (flip_cls (zseq (m + 1 + 1) (length bits)) bits).
+    replace (m + Z.of_nat (S (length bits))) with (m + 1 + Z.of_nat (length bits)) by lia.
+    change ([m + 1; b] :: [- (m + 1); - b] :: flip_cls (zseq (m + 1 + 1) (length bits)) bits)
+      with ([[m + 1; b]; [- (m + 1); - b]] ++ flip_cls (zseq (m + 1 + 1) (length bits)) bits).
+    now apply (defines_seq m (m + 1)).
+Qed.
+
+Lemma flip_cls_sat s fl : forall bits,
+  length fl = length bits -> Forall (fun v => 0 < v) fl -> Forall (fun b => b <> 0) bits ->
+  sat s (flip_cls fl bits) = true -> lits s fl = map negb (lits s bits).
+Proof.
+  induction fl as [|f fl IH]; intros [|b bits] Hl Hf Hb Hs; try discriminate; [reflexivity|].
+  inversion Hf; subst. inversion Hb; subst. cbn [length] in Hl.
+  unfold flip_cls in Hs. cbn [combine flat_map fst snd] in Hs.
+  change (sat s ([[f; b]; [- f; - b]] ++ flip_cls fl bits) = true) in Hs.
+  rewrite sat_app, andb_true_iff in Hs. destruct Hs as [Hs1 Hs2].
+  apply flip_gate_sat in Hs1; try assumption.
+  cbn [lits map]. rewrite lit_true_pos by assumption. rewrite Hs1. f_equal.
+  apply IH; try assumption. lia.
+Qed.
+
+Lemma lsbv_negb bs : lsbv (map negb bs) = 2 ^ Z.of_nat (length bs) - 1 - lsbv bs.
+Proof.
+  induction bs as [|b bs IH].
+  - cbn [map lsbv length]. change (Z.of_nat 0) with 0. rewrite Z.pow_0_r. lia.
+  - cbn [map lsbv length]. rewrite IH, pow2_S. destruct b; cbn [negb Z.b2z]; lia.
+Qed.
+
+Lemma msbv_negb bs : msbv (map negb bs) = 2 ^ Z.of_nat (length bs) - 1 - msbv bs.
+Proof. unfold msbv. rewrite <- map_rev, lsbv_negb, rev_length. reflexivity. Qed.
+
+Definition ones_cls (ones : list Z) : cnf :=
+  zero_cls (removelast ones) ++ match ones with [] => [] | _ => [[last ones 0]] end.
+
+Lemma zseq_S_last a k : zseq a (S k) = zseq a k ++ [a + Z.of_nat k].
+Proof.
+  replace (S k) with (k + 1)%nat by lia. rewrite zseq_app. reflexivity.
+Qed.
+
+Lemma ones_cls_zseq a k :
+  ones_cls (zseq a (S k)) = units (map Z.opp (zseq a k) ++ [a + Z.of_nat k]).
+Proof.
+  unfold ones_cls. rewrite zseq_S_last, removelast_last, last_last.
+  destruct (zseq a k ++ [a + Z.of_nat k]) eqn:E.
+  { destruct (zseq a k); discriminate. }
+  rewrite zero_cls_units. unfold units. now rewrite map_app.
+Qed.
+
+Lemma ones_cls_defines m W :
+  0 <= m -> exists ext, Defines m (m + Z.of_nat W) (ones_cls (zseq (m + 1) W)) ext.
+Proof.
+  intros Hm. destruct W as [|k].
+  - exists (fun s => s). cbn [zseq ones_cls removelast zero_cls map app].
+    replace (m + Z.of_nat 0) with m by lia. now apply defines_nil.
+  - rewrite ones_cls_zseq.
+    destruct (defines_units (map Z.opp (zseq (m + 1) k) ++ [m + 1 + Z.of_nat k]) m Hm) as [e D].
+    { apply units_ok_app; [now apply units_ok_opp_zseq|].
+      rewrite map_length, zseq_length. cbn [units_ok]. split; [lia|exact I]. }
+    rewrite app_length, map_length, zseq_length in D. cbn [length] in D.
+    replace (k + 1)%nat with (S k) in D by lia. now exists e.
+Qed.
+
+Lemma ones_cls_sat s m W :
+  0 <= m -> sat s (ones_cls (zseq (m + 1) W)) = true ->
+  msbv (lits s (zseq (m + 1) W)) = (if Nat.eqb W 0 then 0 else 1).
+Proof.
+  intros Hm Hs. destruct W as [|k]; [reflexivity|]. cbn [Nat.eqb].
+  rewrite ones_cls_zseq in Hs. apply sat_units in Hs. apply Forall_app in Hs.
+  destruct Hs as [Hs1 Hs2]. rewrite zseq_S_last.
+  rewrite msbv_zeros_app.
+  - cbn [lits map]. inversion Hs2 as [|? ? Hl _]; subst. rewrite Hl. reflexivity.
+  - rewrite Forall_forall in *. intros v Hv.
+    specialize (Hs1 (- v) (in_map _ _ _ Hv)). apply zseq_In in Hv.
+    rewrite lit_true_opp in Hs1 by lia. now destruct (lit_true s v).
+Qed.
+
+Definition neg_twos_post (n : Z) (bits : list Z) (out : list Z) (n' : Z) (new : cnf) : Prop :=
+  length out = length bits /\ Forall (inr n') out /\
+  forall s, sat s new = true ->
+    msbv (lits s out)
+    = (2 ^ Z.of_nat (length bits) - msbv (lits s bits)) mod 2 ^ Z.of_nat (length bits).
+
+Lemma neg_twos_spec n bits :
+  0 <= n -> Forall (inr n) bits -> Spec (neg_twos bits) n (neg_twos_post n bits).
+Proof.
+  intros Hn Hb. set (W := length bits).
+  set (fl := zseq (n + 1) W). set (ones := zseq (n + Z.of_nat W + 1) W).
+  destruct (flip_cls_defines bits n n ltac:(lia) Hb) as [e1 D1]. fold W in D1. fold fl in D1.
+  destruct (ones_cls_defines (n + Z.of_nat W) W ltac:(lia)) as [e2 D2]. fold ones in D2.
+  pose proof (defines_seq _ _ _ _ _ _ _ D1 D2) as D.
+  eapply (spec_prefix _ (r <- ripple_carry fl ones ;; ret (rev (snd r))) n
+            (n + Z.of_nat W + Z.of_nat W) _ _); [|exact D|].
+  { intros cs. unfold neg_twos, bind. rewrite nfresh_run. fold W. fold fl.
+    rewrite emit_run. rewrite nfresh_run. fold ones. unfold zero_out.
+    rewrite !emit_run. unfold ones_cls, flip_cls, zero_cls. rewrite <- !app_assoc. reflexivity. }
+  assert (Hlf : length fl = W) by apply zseq_length.
+  assert (Hlo : length ones = W) by apply zseq_length.
+  eapply spec_bind.
+  { apply ripple_carry_spec; [lia|lia| |]; apply zseq_inr; lia. }
+  intros [co sums] n1 new1 Hle (Hn1 & Hls & Hfr & _ & Hsem). cbn [fst snd] in *.
+  apply spec_ret; [lia|]. unfold neg_twos_post. fold W.
+  split; [rewrite rev_length; lia|].
+  split. { apply Forall_rev. apply (Forall_fresh_inr (n + Z.of_nat W + Z.of_nat W)); [lia|assumption]. }
+  intros s Hs. rewrite app_nil_r, !sat_app, !andb_true_iff in Hs.
+  destruct Hs as [[Hs1 Hs2] Hs3].
+  apply flip_cls_sat in Hs1; [|lia|apply zseq_pos; lia|eapply Forall_inr_nz; eassumption].
+  apply ones_cls_sat in Hs2; [|lia]. fold ones in Hs2.
+  specialize (Hsem s Hs3). rewrite Hs1, msbv_negb, Hs2, lits_length, Hlf in Hsem. fold W in Hsem.
+  rewrite lits_rev, msbv_rev.
+  pose proof (lsbv_bounds (lits s sums)) as B. rewrite lits_length, Hls, Hlf in B.
+  pose proof (msbv_bounds (lits s bits)) as By. rewrite lits_length in By. fold W in By.
+  pose proof (pow2_pos W) as HP.
+  destruct W as [|W'] eqn:EW.
+  - change (Z.of_nat 0) with 0 in *. rewrite Z.pow_0_r in *. rewrite Z.mod_1_r. lia.
+  - cbn [Nat.eqb] in Hsem.
+    replace (2 ^ Z.of_nat (S W') - msbv (lits s bits))
+      with (lsbv (lits s sums) + Z.b2z (olit s co) * 2 ^ Z.of_nat (S W')) by lia.
+    rewrite Z_mod_plus_full, Z.mod_small by lia. reflexivity.
+Qed.
+
+(** * The comparison tail of [inequality] *)
+
+Definition cmp_tail (kbs nbs : list Z) : M bool :=
+  neg <- neg_twos nbs ;;
+  r <- ripple_carry kbs neg ;;
+  emit [[last (snd r) 0]] ;;; ret true.
+
+Definition cmp_tail_post (kbs nbs : list Z) (b : bool) (n' : Z) (defs asrt : cnf) : Prop :=
+  b = true /\
+  forall s, sat s defs = true ->
+    exists (low : Z) (top : bool),
+      0 <= low < 2 ^ (Z.of_nat (length kbs) - 1) /\
+      (msbv (lits s kbs)
+       + (2 ^ Z.of_nat (length kbs) - msbv (lits s nbs)) mod 2 ^ Z.of_nat (length kbs))
+        mod 2 ^ Z.of_nat (length kbs)
+      = Z.b2z top * 2 ^ (Z.of_nat (length kbs) - 1) + low /\
+      (sat s asrt = true <-> top = true).
+
+Lemma cmp_tail_spec n kbs nbs :
+  0 <= n -> length kbs = length nbs -> (0 < length kbs)%nat ->
+  Forall (inr n) kbs -> Forall (inr n) nbs ->
+  SpecA (cmp_tail kbs nbs) n (cmp_tail_post kbs nbs).
+Proof.
+  intros Hn Hlen Hpos Hk Hnb. unfold cmp_tail.
+  eapply specA_bind; [apply neg_twos_spec; assumption|].
+  intros neg n1 new1 Hle1 (Hln & Hrn & Hsem1).
+  eapply specA_bind.
+  { apply (ripple_carry_spec n1 kbs neg); [lia|lia| |assumption].
+    eapply Forall_inr_le; [|eassumption]. lia. }
+  intros [co sums] n2 new2 Hle2 (Hn2 & Hls & Hfr & _ & Hsem2). cbn [fst snd] in *.
+  assert (Hne : sums <> []) by (destruct sums; [cbn [length] in Hls; lia|discriminate]).
+  pose proof (app_removelast_last 0 Hne) as Hsplit.
+  set (low := removelast sums) in *. set (t := last sums 0) in *.
+  assert (Hll : length low = (length kbs - 1)%nat).
+  { rewrite Hsplit, app_length in Hls. cbn [length] in Hls. lia. }
+  assert (Ht : fresh_in n1 n2 t).
+  { rewrite Forall_forall in Hfr. apply Hfr. rewrite Hsplit. apply in_or_app. right. now left. }
+  apply specA_emit; [lia| |].
+  { apply vars_upto_Forall. repeat constructor; unfold fresh_in in Ht; lia. }
+  split; [reflexivity|]. intros s Hs. rewrite app_nil_r, sat_app, andb_true_iff in Hs.
+  destruct Hs as [Hs1 Hs2]. specialize (Hsem1 s Hs1). specialize (Hsem2 s Hs2).
+  exists (lsbv (lits s low)), (lit_true s t).
+  pose proof (lsbv_bounds (lits s low)) as Bl. rewrite lits_length, Hll in Bl.
+  replace (Z.of_nat (length kbs - 1)) with (Z.of_nat (length kbs) - 1) in Bl by lia.
+  split; [exact Bl|]. split.
+  - rewrite <- Hlen in Hsem1. rewrite <- Hsem1.
+    pose proof (lsbv_bounds (lits s sums)) as Bs. rewrite lits_length, Hls in Bs.
+    replace (msbv (lits s kbs) + msbv (lits s neg))
+      with (lsbv (lits s sums) + Z.b2z (olit s co) * 2 ^ Z.of_nat (length kbs)) by lia.
+    rewrite Z_mod_plus_full, Z.mod_small by lia.
+    rewrite Hsplit, lits_app, lsbv_app, lits_length, Hll. cbn [lits map lsbv].
+    replace (Z.of_nat (length kbs - 1)) with (Z.of_nat (length kbs) - 1) by lia. lia.
+  - unfold sat, csat. cbn [forallb existsb]. rewrite orb_false_r, andb_true_r. reflexivity.
+Qed.
+
+Lemma cmp_decide (lt : bool) (L w W1 W : nat) (k xs low : Z) (c top : bool) :
+  (0 < w)%nat -> 0 <= k < 2 ^ Z.of_nat L -> 0 <= xs < 2 ^ Z.of_nat w ->
+  (if Nat.eqb L w then W1 = L else W1 = S (Nat.max L w)) ->
+  c = Nat.eqb W1 L && negb (lt && (k =? 2 ^ (Z.of_nat L - 1))) ->
+  (if c then W = S W1 else W = W1) ->
+  0 <= low < 2 ^ (Z.of_nat W - 1) ->
+  ((if lt then xs else k)
+   + (2 ^ Z.of_nat W - (if lt then k else xs)) mod 2 ^ Z.of_nat W) mod 2 ^ Z.of_nat W
+  = Z.b2z top * 2 ^ (Z.of_nat W - 1) + low ->
+  top = (if lt then xs <? k else k <? xs).
+Proof.
+  intros Hw Hk Hxs HW1 Hc HW Hlow Heq.
+  assert (Hgen : 0 < Z.of_nat W -> k < 2 ^ (Z.of_nat W - 1) -> xs < 2 ^ (Z.of_nat W - 1) ->
+                 top = (if lt then xs <? k else k <? xs)).
+  { intros HWp Hkb Hxb. destruct lt.
+    - eapply (twos_top_bit (Z.of_nat W) xs k); try eassumption; try lia; try reflexivity.
+    - eapply (twos_top_bit (Z.of_nat W) k xs); try eassumption; try lia; try reflexivity. }
+  destruct (Nat.eqb L w) eqn:E.
+  - apply Nat.eqb_eq in E. subst w W1. rewrite Nat.eqb_refl in Hc. cbn [andb] in Hc.
+    destruct c.
+    + subst W. apply Hgen; [lia| |]; replace (Z.of_nat (S L) - 1) with (Z.of_nat L) by lia; lia.
+    + subst W. symmetry in Hc. apply negb_false_iff, andb_true_iff in Hc. destruct Hc as [-> Hc].
+      apply Z.eqb_eq in Hc. subst k.
+      eapply (twos_top_bit_pow2 (Z.of_nat L) xs); try eassumption; try lia; try reflexivity.
+  - apply Nat.eqb_neq in E. subst W1.
+    replace (Nat.eqb (S (Nat.max L w)) L) with false in Hc by (symmetry; apply Nat.eqb_neq; lia).
+    cbn [andb] in Hc. subst c. subst W.
+    replace (Z.of_nat (S (Nat.max L w)) - 1) with (Z.of_nat (Nat.max L w)) in * by lia.
+    pose proof (pow2_le_mono L (Nat.max L w) ltac:(lia)).
+    pose proof (pow2_le_mono w (Nat.max L w) ltac:(lia)).
+    apply Hgen; try lia.
+    all: replace (Z.of_nat (S (Nat.max L w)) - 1) with (Z.of_nat (Nat.max L w)) by lia; lia.
+Qed.
+
+(** * [inequality] *)
+
+Lemma digit_cls_swap a : forall b, digit_cls a b = digit_cls b a.
+Proof.
+  induction a as [|x a IH]; intros [|y b]; try reflexivity.
+  unfold digit_cls. cbn [combine map fst snd]. fold (digit_cls a b). fold (digit_cls b a).
+  rewrite IH. now rewrite Z.mul_comm.
+Qed.
+
+Lemma digit_cls_units a b : digit_cls a b = units (map (fun p => fst p * snd p) (combine a b)).
+Proof. unfold digit_cls, units. now rewrite map_map. Qed.
+
+Lemma units_ok_digits ds : forall n,
+  0 <= n -> Forall digit ds ->
+  units_ok n (map (fun p => fst p * snd p) (combine (zseq (n + 1) (length ds)) ds)).
+Proof.
+  induction ds as [|d ds IH]; intros n Hn Hd; [exact I|].
+  inversion Hd as [|? ? Hd1 Hd2]; subst.
+  cbn [length zseq combine map fst snd units_ok]. split.
+  - destruct Hd1 as [->| ->]; lia.
+  - apply IH; [lia|assumption].
+Qed.
+
+Definition ineq_rel (lt : bool) (N k : Z) : Prop := if lt then N < k else k < N.
+
+Lemma inequality_spec n lt k vs :
+  0 <= n -> 0 <= k -> vs <> [] -> Forall (inr n) vs ->
+  SpecA (inequality lt k vs) n (card_post (fun s => ineq_rel lt (count s vs) k)).
+Proof.
+  intros Hn Hk Hne Hvs. unfold inequality.
+  pose proof (int_to_binary_spec k Hk) as Hspec. cbv zeta in Hspec.
+  destruct Hspec as (Hdig & Hval & Hlt & Hge & Hz).
+  remember (int_to_binary k) as bin eqn:Ebin. remember (length bin) as L eqn:EL.
+  eapply specA_bind; [apply pop_count_spec; assumption|].
+  intros o n1 new1 Hle1 (sb & -> & Hlsb & Hrsb & Hsem1).
+  set (w := wd (S L) (clog2 (length vs))) in *.
+  assert (Hw : (0 < w)%nat) by (unfold w; cbn [wd]; lia).
+  (* the constant k *)
+  set (kv := zseq (n1 + 1) L).
+  destruct (defines_units (map (fun p => fst p * snd p) (combine kv bin)) n1 ltac:(lia))
+    as [e2 D2].
+  { unfold kv. rewrite EL. apply units_ok_digits; [lia|assumption]. }
+  rewrite <- digit_cls_units in D2.
+  rewrite map_length, combine_length in D2. unfold kv in D2 at 1. rewrite zseq_length, <- EL in D2.
+  rewrite Nat.min_id in D2. fold kv in D2.
+  eapply (specA_prefix _ _ n1 (n1 + Z.of_nat L) (digit_cls kv bin) e2); [|exact D2|].
+  { intros cs. unfold bind at 1 2. rewrite nfresh_run. fold kv. rewrite emit_run.
+    fold (digit_cls kv bin). reflexivity. }
+  assert (Hlkv : length kv = L) by apply zseq_length.
+  assert (Hrkv : Forall (inr (n1 + Z.of_nat L)) kv) by (apply zseq_inr; lia).
+  eapply specA_bind.
+  { apply (make_same_length_spec (n1 + Z.of_nat L) kv sb); [lia|assumption|].
+    eapply Forall_inr_le; [|eassumption]. lia. }
+  intros [kv1 sb1] n3 new3 Hle3 (Hl1 & Hr1a & Hr1b & Hcase1 & Hsem3). cbn [fst snd] in *.
+  set (c := Nat.eqb (length kv1) L && negb (lt && (k =? 2 ^ (Z.of_nat L - 1)))).
+  eapply specA_bind.
+  { apply (sign_pad_spec n3 c (kv1, sb1)); [lia|assumption|assumption]. }
+  intros [kv2 sb2] n4 new4 Hle4 (Hcase2 & Hr2a & Hr2b & Hsem4). cbn [fst snd] in *.
+  rewrite Hlkv, Hlsb in Hcase1.
+  assert (HW1 : (if Nat.eqb L w then length kv1 = L else length kv1 = S (Nat.max L w))).
+  { destruct (Nat.eqb L w) eqn:E; [|assumption]. injection Hcase1 as -> ->. assumption. }
+  assert (HW : (if c then length kv2 = S (length kv1) else length kv2 = length kv1) /\
+               length sb2 = length kv2).
+  { destruct c.
+    - destruct Hcase2 as [-> ->]. split; [reflexivity|lia].
+    - injection Hcase2 as -> ->. split; [reflexivity|lia]. }
+  destruct HW as [HW HW'].
+  assert (Hpos : (0 < length kv2)%nat).
+  { destruct (Nat.eqb L w) eqn:E; [apply Nat.eqb_eq in E|]; destruct c; lia. }
+  (* semantic facts shared by both directions *)
+  assert (Hfacts : forall s defs,
+            sat s (new1 ++ digit_cls kv bin ++ new3 ++ new4 ++ defs) = true ->
+            msbv (lits s kv2) = k /\ msbv (lits s sb2) = satv (S L) (count s vs) /\
+            0 <= msbv (lits s sb2) < 2 ^ Z.of_nat w /\ sat s defs = true).
+  { intros s defs Hs. rewrite !sat_app, !andb_true_iff in Hs.
+    destruct Hs as (Hs1 & Hs2 & Hs3 & Hs4 & Hs5).
+    destruct (Hsem3 s Hs3) as [E3a E3b]. destruct (Hsem4 s Hs4) as [E4a E4b].
+    rewrite digit_cls_swap in Hs2.
+    apply digit_cls_sat in Hs2; [|lia|assumption|].
+    2:{ apply Forall_forall. intros v Hv. apply zseq_In in Hv. lia. }
+    split. { rewrite E4a, E3a, Hs2. exact Hval. }
+    split. { rewrite E4b, E3b. now apply Hsem1. }
+    split; [|assumption]. rewrite E4b, E3b.
+    pose proof (msbv_bounds (lits s sb)) as B. now rewrite lits_length, Hlsb in B. }
+  destruct lt.
+  - (* sum < k : kbs = sum bits, nbs = k *)
+    cbn [andb] in c. fold (cmp_tail sb2 kv2).
+    eapply specA_conseq.
+    { apply (cmp_tail_spec n4 sb2 kv2); [lia|lia|lia|assumption|assumption]. }
+    intros b n5 defs asrt Hle5 (-> & Hsem5). split; [reflexivity|].
+    intros s Hs. destruct (Hfacts s defs Hs) as (Ek & Es & Bs & Hsd).
+    destruct (Hsem5 s Hsd) as (low & top & Blow & Eq & Hiff).
+    rewrite HW' in Blow, Eq. rewrite Ek in Eq.
+    pose proof (count_bounds s vs) as HN.
+    rewrite Hiff. unfold ineq_rel.
+    rewrite <- (satv_lt_iff L (count s vs) k) by lia. rewrite <- Es.
+    assert (Etop : top = (msbv (lits s sb2) <? k)).
+    { apply (cmp_decide true L w (length kv1) (length kv2) k (msbv (lits s sb2)) low c top);
+        try assumption; try lia; try reflexivity. }
+    rewrite Etop. apply Z.ltb_lt.
+  - cbn [andb negb] in c. fold (cmp_tail kv2 sb2).
+    eapply specA_conseq.
+    { apply (cmp_tail_spec n4 kv2 sb2); [lia|lia|lia|assumption|assumption]. }
+    intros b n5 defs asrt Hle5 (-> & Hsem5). split; [reflexivity|].
+    intros s Hs. destruct (Hfacts s defs Hs) as (Ek & Es & Bs & Hsd).
+    destruct (Hsem5 s Hsd) as (low & top & Blow & Eq & Hiff).
+    rewrite Ek in Eq.
+    pose proof (count_bounds s vs) as HN.
+    rewrite Hiff. unfold ineq_rel.
+    rewrite <- (satv_gt_iff L (count s vs) k) by lia. rewrite <- Es.
+    assert (Etop : top = (k <? msbv (lits s sb2))).
+    { apply (cmp_decide false L w (length kv1) (length kv2) k (msbv (lits s sb2)) low c top);
+        try assumption; try lia; try reflexivity. }
+    rewrite Etop. apply Z.ltb_lt.
+Qed.
+
+(** * The three request kinds *)
+
+Definition rel (kd : kind) (N k : Z) : Prop :=
+  match kd with EQ => N = k | LT => N < k | GT => N > k end.
+
+Lemma request_spec n kd k vs :
+  0 <= n -> 0 <= k -> vs <> [] -> Forall (inr n) vs ->
+  SpecA (request kd k vs) n (card_post (fun s => rel kd (count s vs) k)).
+Proof.
+  intros Hn Hk Hne Hvs. destruct kd; cbn [request].
+  - now apply assert_k_of_n_spec.
+  - eapply specA_conseq; [now apply inequality_spec|].
+    intros b n' defs asrt _ H. exact H.
+  - eapply specA_conseq; [now apply inequality_spec|].
+    intros b n' defs asrt _ [Hb H]. split; [assumption|].
+    intros s Hs. rewrite (H s Hs). unfold ineq_rel, rel. lia.
+Qed.
+
+Lemma request_correct : forall kd k vs n,
+  0 <= n -> 0 <= k -> vs <> [] -> Forall (inr n) vs ->
+  exists n' clauses,
+    request kd k vs {| next := n; cls := [] |}
+    = (true, {| next := n'; cls := clauses |}) /\
+    n <= n' /\ vars_upto n' clauses /\
+    (forall s, (exists t, agree_upto n s t /\ sat t clauses = true)
+               <-> rel kd (count s vs) k) /\
+    (forall t1 t2, agree_upto n t1 t2 ->
+       sat t1 clauses = true -> sat t2 clauses = true -> agree_upto n' t1 t2).
+Proof.
+  intros kd k vs n Hn Hk Hne Hvs.
+  destruct (request_spec n kd k vs Hn Hk Hne Hvs)
+    as (b & n' & defs & asrt & ext & R & D & V & -> & Hiff).
+  exists n', (defs ++ asrt). split; [exact (R [])|].
+  pose proof (def_range _ _ _ _ D) as Rg. split; [lia|].
+  split; [apply vars_upto_app; [apply (def_vars _ _ _ _ D)|exact V]|].
+  split.
+  - intros s. split.
+    + intros (t & A & St). rewrite sat_app, andb_true_iff in St. destruct St as [St1 St2].
+      rewrite (count_agree n s t vs A Hvs). now apply (Hiff t St1).
+    + intros Hrel. exists (ext s).
+      pose proof (defines_ext_agree _ _ _ _ s D Hn) as A.
+      pose proof (defines_sat_ext _ _ _ _ s D) as S1.
+      split; [exact A|]. rewrite sat_app, S1. cbn [andb]. apply (Hiff _ S1).
+      now rewrite <- (count_agree n s (ext s) vs A Hvs).
+  - intros t1 t2 A S1 S2. rewrite sat_app, andb_true_iff in S1, S2.
+    destruct S1 as [S1 _], S2 as [S2 _]. exact (defines_unique _ _ _ _ _ _ D A S1 S2).
 Qed.
